@@ -134,13 +134,41 @@ Qed.
 Lemma forallb_ext' {A} (f g : A -> bool) l : (forall x, f x = g x) -> forallb f l = forallb g l.
 Proof. intro H. induction l as [|x l IH]; [reflexivity|]. cbn [forallb]. now rewrite H, IH. Qed.
 
-Lemma valid_ext c1 c2 : (forall k, lookup k c1 = lookup k c2) -> valid c1 = valid c2.
+Lemma valid_with_ext req lv fm rc rb tc tb c1 c2 : (forall k, lookup k c1 = lookup k c2) ->
+  valid_with req lv fm rc rb tc tb c1 = valid_with req lv fm rc rb tc tb c2.
 Proof.
-  intro H. unfold valid.
-  assert (H1 : forallb (fun k => has_key k c1) required_keys = forallb (fun k => has_key k c2) required_keys)
+  intro H. unfold valid_with.
+  assert (H1 : forallb (fun k => has_key k c1) req = forallb (fun k => has_key k c2) req)
     by (apply forallb_ext'; intro k; unfold has_key; now rewrite H).
-  rewrite H1. unfold check_member, check_max_retries, check_timeout, check_app_name. now rewrite !H.
+  rewrite H1. unfold check_member, check_int_guard, check_num_guard, check_app_name. now rewrite !H.
 Qed.
+
+Lemma valid_ext c1 c2 : (forall k, lookup k c1 = lookup k c2) -> valid c1 = valid c2.
+Proof. apply valid_with_ext. Qed.
+
+(* the guards found in the source are the documented ones: required keys, level and format sets, max_retries
+   rejected iff not an integer or < 0, timeout rejected iff not a number or <= 0 - and the messages say so.
+   Changing an operator, a bound or a set in src/config.py breaks this proof. *)
+Theorem valid_is_documented : forall c, valid c = valid_doc c.
+Proof. reflexivity. Qed.
+
+Lemma documented_messages :
+  max_retries_msg = "max_retries must be a non-negative integer" /\ timeout_msg = "timeout must be a positive number"
+  /\ app_name_msg = "app_name must be a non-empty string".
+Proof. repeat split; reflexivity. Qed.
+
+(* the documented boundaries, spelled out on values *)
+Lemma documented_boundaries :
+  check_num_guard "timeout" CLe 0 [("timeout", VInt 0)] = false /\
+  check_num_guard "timeout" CLe 0 [("timeout", VFloat false "0" "0")] = false /\
+  check_num_guard "timeout" CLe 0 [("timeout", VFloat true "0" "0")] = false /\
+  check_num_guard "timeout" CLe 0 [("timeout", VFloat false "0" "001")] = true /\
+  check_num_guard "timeout" CLe 0 [("timeout", VInt 1)] = true /\
+  check_num_guard "timeout" CLe 0 [("timeout", VInt (-1))] = false /\
+  check_int_guard "max_retries" CLt 0 [("max_retries", VInt 0)] = true /\
+  check_int_guard "max_retries" CLt 0 [("max_retries", VInt (-1))] = false /\
+  check_int_guard "max_retries" CLt 0 [("max_retries", VFloat false "1" "0")] = false.
+Proof. vm_compute. repeat split; reflexivity. Qed.
 
 (* ------------------------------------------------------------------ well-kept configurations *)
 Definition kept (c : cfg) : Prop :=
@@ -290,7 +318,7 @@ Proof.
       assert (Hk' : kept conf') by (rewrite Hconf'; apply kept_upd; [exact Hkept|apply norm_idem]).
       rewrite <- (convert_is_documented t).
       assert (Hst : stored_ok k (convert t) (Some conf') = true).
-      { unfold stored_ok. rewrite (valid_ext _ conf') by (intro x; now apply reload_lookup).
+      { unfold stored_ok. rewrite <- valid_is_documented. rewrite (valid_ext _ conf') by (intro x; now apply reload_lookup).
         rewrite Hv. destruct Hk' as (N1 & N2 & N3). rewrite (normalize_fixed conf' N1 N2).
         rewrite Hconf', lookup_upd, String.eqb_refl. apply cval_eqb_refl. }
       rewrite Hst. apply IH; [exact Hcr|].
